@@ -670,6 +670,29 @@ fn gen_multi(rng: &mut Rng, base: &[(String, Range)]) -> (String, Range) {
     }
 }
 
+/// pairs of prerelease versions on one tuple whose first differing identifier is a word of n bytes against a proper
+/// extension of it, or two words of n+1 bytes differing in the last byte — for every n around the sizes a chunked or
+/// packed string comparison would use (4, 8, 16, 24 bytes)
+pub fn word_boundary_pairs() -> Vec<(Version, Version)> {
+    let alphabet = "snapshotunstablereleasecandidate";
+    let mut out = Vec::new();
+    for n in [1usize, 2, 3, 4, 5, 7, 8, 9, 15, 16, 17, 23, 24, 25] {
+        let w = &alphabet[..n];
+        let mk = |tags: Vec<Identifier>| Version { major: 1, minor: 0, patch: 0, pre_release: tags, build: vec![] };
+        for (x, y) in [
+            (vec![al(w)], vec![al(&format!("{}2", w))]),
+            (vec![al(w)], vec![al(&format!("{}-1", w))]),
+            (vec![al(&format!("{}a", w))], vec![al(&format!("{}b", w))]),
+            (vec![al(w), num(1)], vec![al(&format!("{}0", w))]),
+            (vec![al("rc"), al(w)], vec![al("rc"), al(&format!("{}x", w))]),
+        ] {
+            out.push((mk(x.clone()), mk(y.clone())));
+            out.push((mk(y), mk(x)));
+        }
+    }
+    out
+}
+
 // ---------------------------------------------------------------- streams
 
 pub fn run_stream(name: &str, thorough: bool, rng: &mut Rng, o: &mut Out) {
@@ -677,6 +700,9 @@ pub fn run_stream(name: &str, thorough: bool, rng: &mut Rng, o: &mut Out) {
     match name {
         "const" => o.consts(),
         "vcmp_pool" => {
+            for (a, b) in word_boundary_pairs() {
+                o.vcmp(&a, &b);
+            }
             // curated pool: all ordered pairs
             let mut pool: Vec<Version> = Vec::new();
             let tuples = [(0u64, 0u64, 0u64), (1, 0, 0), (1, 2, 3), (1, 2, 4), (1, 3, 0), (2, 0, 0), (MAX, MAX, MAX), (u64::MAX, 0, u64::MAX)];
@@ -890,6 +916,9 @@ pub fn run_stream(name: &str, thorough: bool, rng: &mut Rng, o: &mut Out) {
             }
         }
         "vdiff" => {
+            for (a, b) in word_boundary_pairs() {
+                o.vdiff(&a, &b);
+            }
             let nums = [0u64, 1, 2];
             let pres: Vec<Vec<Identifier>> = vec![vec![], vec![num(0)], vec![al("alpha")], vec![al("alpha"), num(1)]];
             let mut grid = Vec::new();
